@@ -4,6 +4,9 @@ import NanoVerif.Proofs.TensorIntegral
 import NanoVerif.Proofs.TensorReshape
 import NanoVerif.Proofs.TensorStack
 import NanoVerif.Proofs.TensorView
+import NanoVerif.Proofs.TensorStorageOps
+import NanoVerif.Proofs.TensorStorageHist
+import NanoVerif.Proofs.TensorRange
 /-!
   C16 — property theorems about the tensor addressing model (`Model/Tensor.lean`).
   Core Lean only. Helper lemmas live in this file only when they are part of the statement chain;
@@ -1196,3 +1199,168 @@ example : (T.integralX (fun x : Nat => Int.ofNat x) ⟨[2, 2], [200, 201, 202, 2
 example : integralWrapped 8 [4] [100, 100, -100, -50] = [100, -56, 100, 50] := by decide
 
 end NanoVerif.Tensor
+
+/-!
+  ### the three storages on the heap model (`Model/TensorStorage.lean`)
+
+  The conversion / assignment / resize / move theorems live in `Proofs/TensorStorage*.lean` (their statements are the
+  obligations); here: the views of any storage tied to the addressing theorems above, the headline statements, and the
+  non-vacuity examples.
+-/
+namespace NanoVerif.Tensor.Store
+open NanoVerif.Tensor
+
+variable {α : Type}
+
+/-- a view `w` (computed by the addressing model on the dims alone) of a readable object `o` of ANY storage: it reads exactly
+    the elements `w.read` selects from what `o` reads — nothing outside `o`'s own elements, hence nothing outside the
+    allocation -/
+theorem obj_view_elems {h : Heap α} {o : Obj} {xs : List α} (k : Kind) (w : View) (ho : o.elems h = some xs)
+    (hw : w.off + size w.dims ≤ size o.dims) :
+    (⟨k, o.ptr.add w.off, w.dims⟩ : Obj).elems h = some (w.read xs) :=
+  read_add ho w.off (size w.dims) hw
+
+/-- `slice(b, e)` of any storage: in bounds of the object it is taken from, reading the elements the addressing model's
+    slice selects (whose elements `view_slice_elem` identifies with full indexing) -/
+theorem obj_slice_elems {h : Heap α} {o v : Obj} {xs : List α} (c : Bool) (b e : Nat) (ho : o.elems h = some xs)
+    (hs : o.slice c b e = some v) :
+    ∃ w, View.slice ⟨0, o.dims⟩ b e = some w ∧ v.dims = w.dims ∧ w.off + size w.dims ≤ size o.dims ∧
+      v.elems h = some (w.read xs) := by
+  unfold Obj.slice at hs
+  cases hw : View.slice ⟨0, o.dims⟩ b e with
+  | none => simp [hw] at hs
+  | some w =>
+    simp only [hw, Option.map_some, Option.some.injEq] at hs
+    subst hs
+    have hb := (view_slice_in_bounds ⟨0, o.dims⟩ w b e hw).2
+    simp only [Nat.zero_add] at hb
+    exact ⟨w, rfl, rfl, hb, obj_view_elems _ w ho hb⟩
+
+/-- `tensor(i…)` of any storage -/
+theorem obj_sub_elems {h : Heap α} {o v : Obj} {xs : List α} (c : Bool) (pre : List Nat) (ho : o.elems h = some xs)
+    (hs : o.sub c pre = some v) :
+    ∃ w, View.sub ⟨0, o.dims⟩ pre = some w ∧ v.dims = w.dims ∧ w.off + size w.dims ≤ size o.dims ∧
+      v.elems h = some (w.read xs) := by
+  unfold Obj.sub at hs
+  cases hw : View.sub ⟨0, o.dims⟩ pre with
+  | none => simp [hw] at hs
+  | some w =>
+    simp only [hw, Option.map_some, Option.some.injEq] at hs
+    subst hs
+    have hb := (view_sub_in_bounds ⟨0, o.dims⟩ w pre hw).2
+    simp only [Nat.zero_add] at hb
+    exact ⟨w, rfl, rfl, hb, obj_view_elems _ w ho hb⟩
+
+/-- `reshape(sizes…)` of any storage: the same elements in the same flat order under the new dims -/
+theorem obj_reshape_elems {h : Heap α} {o v : Obj} {xs : List α} (c : Bool) (sizes : List Int) (ho : o.elems h = some xs)
+    (hs : o.reshape c sizes = some v) :
+    size v.dims = size o.dims ∧ v.ptr = o.ptr ∧ v.elems h = some xs := by
+  unfold Obj.reshape at hs
+  cases hw : View.reshape ⟨0, o.dims⟩ sizes with
+  | none => simp [hw] at hs
+  | some w =>
+    simp only [hw, Option.map_some, Option.some.injEq] at hs
+    subst hs
+    obtain ⟨hoff, hsz⟩ := view_reshape_in_bounds ⟨0, o.dims⟩ w sizes hw
+    simp only at hoff hsz
+    have hp : o.ptr.add w.off = o.ptr := by
+      rw [hoff]
+      cases o.ptr with
+      | none => rfl
+      | some q => simp [Ptr.add]
+    refine ⟨hsz, hp, ?_⟩
+    show h.read (o.ptr.add w.off) (size w.dims) = some xs
+    rw [hp, hsz]
+    exact ho
+
+/-- the non-owning conversions (`map(tensor)`, `cmap(tensor)`, `cmap(map)`, copies and moves of maps, move-assignment of a
+    constant map): same pointer, same dims — they read what the source reads, in every heap, and neither read nor write
+    anything themselves -/
+theorem viewOf_elems (h : Heap α) (k : Kind) (src : Obj) :
+    (viewOf k src).elems h = src.elems h ∧ (viewOf k src).dims = src.dims ∧ (viewOf k src).ptr = src.ptr := ⟨rfl, rfl, rfl⟩
+
+/-- HEADLINE — `owning/mapping/constant-mapping storages convert without changing contents`: every conversion of a
+    readable source, into an owning tensor (by construction or by assignment, the source possibly viewing the destination
+    itself) or into a map, yields the source's dims and the source's element sequence as it was before the operation -/
+theorem assign_preserves_elements {h : Heap α} {dst src : Obj} (hc : src.count h = size src.dims) (hd : dst.OkMem h) :
+    (∀ h' o, memCopy h src = some (h', o) → o.dims = src.dims ∧ o.elems h' = src.elems h) ∧
+    (∀ h' o, memAssignView h dst src = some (h', o) → o.dims = src.dims ∧ o.elems h' = src.elems h) ∧
+    (∀ k, (viewOf k src).dims = src.dims ∧ (viewOf k src).elems h = src.elems h) :=
+  ⟨fun _ _ hm => ⟨(memCopy_elems hc hm).1, (memCopy_elems hc hm).2.1⟩,
+   fun _ _ hm => ⟨(memAssignView_elems hd hm).1, (memAssignView_elems hd hm).2.1⟩,
+   fun _ => ⟨rfl, rfl⟩⟩
+
+/-- writes through an object land exactly on its own cells: any other object `q` (a view of the same allocation at any
+    offset and of any shape, or something else) reads afterwards what it read before, except at the positions whose cell
+    the writer addresses — where it reads the written value -/
+theorem write_alias_exact {h h' : Heap α} {w q : Obj} {b wo c qo : Nat} {vals ys : List α} (hwp : w.ptr = some (b, wo))
+    (hqp : q.ptr = some (c, qo)) (hw : w.write h vals = some h') (hq : q.elems h = some ys) :
+    ∃ ys', q.elems h' = some ys' ∧ ∀ j, j < size q.dims →
+      ys'[j]? = if c = b ∧ wo ≤ qo + j ∧ qo + j < wo + size w.dims then vals[qo + j - wo]? else ys[j]? := by
+  unfold Obj.write at hw
+  by_cases hg : w.kind ≠ .cmap ∧ vals.length = size w.dims
+  · rw [if_pos hg, hwp] at hw
+    unfold Obj.elems at hq ⊢
+    rw [hqp] at hq ⊢
+    have := read_after_write hw hq
+    rw [hg.2] at this
+    exact this
+  · rw [if_neg hg] at hw; cases hw
+
+/-! non-vacuity: the hypotheses of the storage theorems are satisfiable, and the operations compute what they say -/
+
+-- `t = t.slice(1, 3)` of a 3x2 owner through a map of its own buffer: fresh allocation, previous one released
+example : memAssignView [some [(1 : Int), 2, 3, 4, 5, 6]] ⟨.mem, some (0, 0), [3, 2]⟩ ⟨.map, some (0, 2), [2, 2]⟩
+    = some ([none, some [3, 4, 5, 6]], ⟨.mem, some (1, 0), [2, 2]⟩) := by decide
+example : (⟨.mem, some (0, 0), [3, 2]⟩ : Obj).OkMem [some [(1 : Int), 2, 3, 4, 5, 6]] :=
+  ⟨rfl, Or.inr ⟨0, _, rfl, rfl, by decide, by decide⟩⟩
+-- the slice as the addressing model computes it, as an object
+example : (⟨.mem, some (0, 0), [3, 2]⟩ : Obj).slice false 1 3 = some ⟨.map, some (0, 2), [2, 2]⟩ := by decide
+-- copy construction from a constant map not starting at the owner's first element; an empty source gives nullptr
+example : memCopy [some [(1 : Int), 2, 3, 4]] ⟨.cmap, some (0, 1), [2]⟩ = some ([some [1, 2, 3, 4], some [2, 3]], ⟨.mem, some (1, 0), [2]⟩) := by
+  decide
+example : memCopy [some [(1 : Int), 2, 3, 4]] ⟨.cmap, some (0, 1), [0, 5]⟩ = some ([some [1, 2, 3, 4]], ⟨.mem, none, [0, 5]⟩) := by
+  decide
+-- resize: same count keeps the buffer, another count releases it
+example : memResize (-99 : Int) [some [1, 2, 3, 4, 5, 6]] ⟨.mem, some (0, 0), [3, 2]⟩ [2, 3]
+    = ([some [1, 2, 3, 4, 5, 6]], ⟨.mem, some (0, 0), [2, 3]⟩) := by decide
+example : memResize (-99 : Int) [some [1, 2, 3, 4, 5, 6]] ⟨.mem, some (0, 0), [3, 2]⟩ [2]
+    = ([none, some [-99, -99]], ⟨.mem, some (1, 0), [2]⟩) := by decide
+-- owning = owning: same count re-uses the allocation, another count does not
+example : memAssignMem [some [(1 : Int), 2], some [7, 8]] ⟨.mem, some (0, 0), [2]⟩ ⟨.mem, some (1, 0), [1, 2]⟩
+    = some ([some [7, 8], some [7, 8]], ⟨.mem, some (0, 0), [1, 2]⟩) := by decide
+example : memAssignMem [some [(1 : Int), 2], some [7, 8, 9]] ⟨.mem, some (0, 0), [2]⟩ ⟨.mem, some (1, 0), [3]⟩
+    = some ([none, some [7, 8, 9], some [7, 8, 9]], ⟨.mem, some (2, 0), [3]⟩) := by decide
+-- map = tensor of equal size, the map starting at element 2 of its owner; overlapping map = map in the supported direction
+example : mapAssign [some [(1 : Int), 2, 3, 4, 5], some [8, 9]] ⟨.map, some (0, 2), [2]⟩ ⟨.mem, some (1, 0), [2]⟩
+    = some [some [1, 2, 8, 9, 5], some [8, 9]] := by decide
+example : mapAssign [some [(1 : Int), 2, 3, 4, 5]] ⟨.map, some (0, 0), [3]⟩ ⟨.map, some (0, 1), [3]⟩ = some [some [2, 3, 4, 4, 5]] := by
+  decide
+-- a stale view: after `t = t.slice(…)` the map of the previous allocation reads nothing
+example : (⟨.map, some (0, 2), [2, 2]⟩ : Obj).elems [none, some [(3 : Int), 4, 5, 6]] = none := by decide
+-- a whole history: owner 0 (3 elements), map 2 of it, owner 1 copy-constructed from the map, write through the map
+example : (run (-99 : Int) ⟨[], [Obj.default .mem 1, Obj.default .mem 1, Obj.default .map 1]⟩
+    [.new 0 [3], .fill 0 [1, 2, 3], .slice 2 0 false 1 3, .ctor 1 2, .fill 2 [8, 9]]).map (fun st => (st.heap, st.objs))
+    = some ([some [1, 8, 9], some [2, 3]],
+            [⟨.mem, some (0, 0), [3]⟩, ⟨.mem, some (1, 0), [2]⟩, ⟨.map, some (0, 1), [2]⟩]) := by decide
+-- the ownership invariant: the initial state of a program satisfies it, hence so does every state a history reaches
+example : Inv (⟨[], [Obj.default .mem 1, Obj.default .mem 1, Obj.default .map 1]⟩ : St Int) :=
+  inv_init _ (by
+    intro i x hx
+    have hm : x ∈ [Obj.default .mem 1, Obj.default .mem 1, Obj.default .map 1] := List.mem_of_getElem? hx
+    simp only [List.mem_cons, List.not_mem_nil, or_false] at hm
+    rcases hm with rfl | rfl | rfl <;> rfl)
+-- a moved-from owner as coded: dims kept, pointer gone (move construction) / the destination's old allocation (move assignment)
+example : memMoveCtor ⟨.mem, some (0, 0), [2, 3]⟩ = (⟨.mem, some (0, 0), [2, 3]⟩, ⟨.mem, none, [2, 3]⟩) := by decide
+example : memMoveAssign ⟨.mem, some (1, 0), [4]⟩ ⟨.mem, some (0, 0), [2, 3]⟩
+    = (⟨.mem, some (0, 0), [2, 3]⟩, ⟨.mem, some (1, 0), [2, 3]⟩) := by decide
+-- ranges, arange, make_matrix, stack of vectors as coded
+example : (makeRange 1 3).valid 3 = true ∧ (makeRange 2 2).valid 3 = false ∧ sliceAssert 2 2 3 = true := by decide
+example : arange (-2) 3 = some [-2, -1, 0, 1, 2] ∧ arange 4 4 = some [] ∧ arange 5 4 = none := by decide
+example : (makeMatrix 2 [1, 2, 3, 4, 5, 6]).map (·.dims) = some [2, 3] ∧ (makeMatrix 4 [1, 2, 3, 4, 5, 6]).isNone := by decide
+example : stackVecCoded (0 : Int) 5 [[1, 2], [], [3, 4, 5]] = some [1, 2, 3, 4, 5] ∧ stackVecCoded (0 : Int) 4 [[1, 2], [3, 4, 5]] = none := by
+  decide
+example : removeIfRowsN [false, true, false] [[[0], [1], [2]], [[10, 11], [20, 21], [30, 31]]]
+    = (2, [[[0], [2], [2]], [[10, 11], [30, 31], [30, 31]]]) := by decide
+
+end NanoVerif.Tensor.Store
